@@ -351,7 +351,7 @@ func (t *thread) apply(opts *execOpts) error {
 	t.dstack = newStack(t.cfg, t.hasFlag(scriptflag.VerifyMinimalData))
 	t.astack = newStack(t.cfg, t.hasFlag(scriptflag.VerifyMinimalData))
 
-	if t.tx != nil {
+	if t.tx != nil && t.prevOutput != nil {
 		t.tx.InputIdx(t.inputIdx).PreviousTxScript = t.prevOutput.LockingScript
 		t.tx.InputIdx(t.inputIdx).PreviousTxSatoshis = t.prevOutput.Satoshis
 	}
